@@ -21,6 +21,16 @@ theorem restore_serialize (c : Conn) (h : Serializable c) (b : Bytes) (hb : seri
 theorem serialize_of_serializable (c : Conn) (h : Serializable c) : ∃ b, serialize c = .blob b :=
   Lemmas.SmBlob.serialize_of_serializable c h
 
+/-- the blob determines everything it is meant to carry: two resumable states that serialise to the
+    same bytes agree on both counters, the session id, the unsent texts (in order) and the
+    unacknowledged (sequence number, text) pairs (in order) — no two different states share a blob -/
+theorem serialize_injective (c₁ c₂ : Conn) (h₁ : Serializable c₁) (h₂ : Serializable c₂) (b : Bytes)
+    (hb₁ : serialize c₁ = .blob b) (hb₂ : serialize c₂ = .blob b) :
+    c₁.q.sentNr = c₂.q.sentNr ∧ c₁.handledNr = c₂.handledNr ∧ c₁.smId = c₂.smId ∧
+    c₁.q.queue.map (·.data) = c₂.q.queue.map (·.data) ∧
+    c₁.q.smQueue.map (fun e => (e.smH, e.data)) = c₂.q.smQueue.map (fun e => (e.smH, e.data)) :=
+  Lemmas.SmBlob.serialize_injective c₁ c₂ h₁ h₂ b hb₁ hb₂
+
 theorem restore_strict (b : Bytes) (c' : Conn) (h : restore fresh b = (c', .rc 0)) :
     serialize c' = .blob b := Lemmas.SmBlob.restore_strict b c' h
 
